@@ -328,6 +328,10 @@ pub fn register_into(b: &mut Builder, ops: &[Op], next_id: &mut usize, ctx: &Arc
                 *next_id += 1;
                 b.add_thread_local(RSys::new(id, &s.reads, &s.writes, s.time, ctx));
             }
+            Op::Static(_) => {
+                // statically typed systems are only used by the plan-level checks of the engine
+                *next_id += 1;
+            }
             Op::Batch(bs) => {
                 let id = *next_id;
                 *next_id += 1;
